@@ -157,6 +157,13 @@ func c07Scalar(c *Ctx, fd *ast.FuncDecl, name string, t *types.Named, par types.
 			}
 			return false
 		}
+		if lv, ok := v.valueOf(b.X); ok {
+			// recv.getVal() == other.getVal(): the accessor of a scalar wrapper hands back its payload (C08.R1 / C12)
+			if rv, ok := v.valueOf(b.Y); ok {
+				return (v.isRecv(lv) && otherValue(rv, par, own)) || (v.isRecv(rv) && otherValue(lv, par, own))
+			}
+			return false
+		}
 		l, ok1 := b.X.(TSel)
 		r, ok2 := b.Y.(TSel)
 		if !ok1 || !ok2 || l.Field != st.Field(0) || r.Field != st.Field(0) {
@@ -365,6 +372,40 @@ func c07R4(c *Ctx) {
 		if good {
 			call, ok := paths[0].Vals[0].(TCall)
 			good = ok && call.Fun != nil && call.Fun.Name() == "isEqual" && call.Recv != nil && v.isSelf(call.Recv) && len(call.Args) == 1 && isParamTerm(call.Args[0], par)
+		}
+		if !good {
+			// isEqual's body spelled out: path for path what isEqual of the same container does with the same operand
+			if ie := c.Decl("(*" + ct.Named.Obj().Name() + ").isEqual"); ie != nil {
+				want := map[string]int{}
+				okAll := true
+				for _, p := range c.NewSX().Run(ie) {
+					if p.Why != "" {
+						okAll = false
+					}
+					want[c.pathSignature(p, nil, c.recvObj(ie), soleParam(c, ie))]++
+				}
+				for _, p := range paths {
+					if p.Why != "" {
+						okAll = false
+						break
+					}
+					sg := c.pathSignature(p, nil, c.recvObj(fd), par)
+					if want[sg] == 0 {
+						okAll = false
+						break
+					}
+					want[sg]--
+				}
+				for _, k := range want {
+					if k != 0 {
+						okAll = false
+					}
+				}
+				if okAll && len(paths) > 0 {
+					ob.Ok("path for path the body of isEqual of the same container applied to the argument (isEqual spelled out)")
+					continue
+				}
+			}
 		}
 		ob.Check(good, "returns self.isEqual(argument)", "Equals does not simply return isEqual of the receiver with its argument")
 	}
